@@ -52,7 +52,7 @@ def _special_values(t):
 
 _SPECIALS = {t: _special_values(t) for t in FIXED_TYPES}
 
-_text = st.text(max_size=6)
+_text = st.one_of(st.text(max_size=6), st.sampled_from(['a\x00', '\x00', 'pad\x00\x00', '°C', 'ß']))
 _wild_text = st.one_of(
     st.sampled_from(['', 'a', 'abc', 'é', '日本語', "it's", 'x' * 40, '\x00', 'line\nbreak', '𝄞']),
     st.text(max_size=12))
@@ -314,6 +314,25 @@ def _segment(draw, o, groups, chans, counters, version, si):
     if (chunk_bytes == 0 or header_only) and draw(st.integers(0, 3)) == 0:
         seg['raw_flag'] = True
     return seg
+
+
+@st.composite
+def with_continuation(draw, fs):
+    """Append 1-2 raw-data-only segments (no metadata block) that repeat the last segment's layout and chunk count with new
+    values - what a logger produces while nothing but the data changes."""
+    last = fs['segments'][-1]
+    if not last.get('active') or not last.get('nchunks') or any(t == 'str' for (_p, t, _n) in last['active']) \
+            or not last.get('meta', True) or last.get('trim_raw') or last.get('marker'):
+        return fs
+    segs = list(fs['segments'])
+    for k in range(draw(st.integers(1, 2))):
+        data = {}
+        for (p, t, n) in last['active']:
+            data[p] = [b''.join(unique_value(t, 7 + k, 1000 + 100 * k + c * n + i) for i in range(n)) for c in range(last['nchunks'])]
+        # (the byte order is a flag of each segment's own lead-in: the continuation may differ from the declaring segment)
+        segs.append(dict(last, meta=False, newlist=False, entries=[], data=data, pad=0,
+                         be=bool(last.get('be')) if draw(st.integers(0, 2)) else not last.get('be')))
+    return {'segments': segs}
 
 
 @st.composite
